@@ -17,6 +17,7 @@ package main
 
 import (
 	"bytes"
+	"crypto/elliptic"
 	"encoding/binary"
 	"encoding/hex"
 	"encoding/json"
@@ -188,6 +189,30 @@ func wellFormed(k wfCase) (string, []byte, string, []byte) {
 		o := oToken{v: &t}
 		return fmt.Sprintf("type%d.Token", k.A), t.Marshal(), o.Fields(), o.Hand()
 	case "encap":
+		if k.A >= 2 {
+			// name keys of the other KEMs, assembled by hand (there is no constructor for them):
+			// id || kem_id || public key || kdf_id || aead_id
+			kems := []struct {
+				id  int
+				pub func() []byte
+			}{
+				{0x0010, func() []byte {
+					x, y := elliptic.P256().ScalarBaseMult(append([]byte{1}, fill(lbl, 30)...))
+					return elliptic.Marshal(elliptic.P256(), x, y)
+				}},
+				{0x0012, func() []byte {
+					x, y := elliptic.P521().ScalarBaseMult(append([]byte{1}, fill(lbl, 60)...))
+					return elliptic.Marshal(elliptic.P521(), x, y)
+				}},
+				{0x0020, func() []byte { return fill(lbl, 32) }},
+			}
+			km := kems[(k.A-2)%len(kems)]
+			pub := km.pub()
+			id, kdf, aead := byte(k.B), 1+k.C%3, 1+k.D%3
+			hand := cat([]byte{id}, u16(km.id), pub, u16(kdf), u16(aead))
+			fields := fmt.Sprintf("encap id=%02x kem=%04x kdf=%04x aead=%04x pk=%s", id, km.id, kdf, aead, hx(pub))
+			return "type3.EncapKey", hand, fields, hand
+		}
 		var key type3.EncapKey
 		if k.A == 0 {
 			key = world.W3.Issuer.NameKey()
@@ -578,6 +603,11 @@ func main() {
 	}
 	for a := 0; a < 6; a++ {
 		wf = append(wf, wfCase{Kind: "encap", A: a})
+		for kem := 2; kem < 5; kem++ {
+			for suite := 0; suite < 9; suite++ {
+				wf = append(wf, wfCase{Kind: "encap", A: kem, B: a * 127, C: suite / 3, D: suite % 3})
+			}
+		}
 	}
 	maxList := mc.Pick(r, 4, 6)
 	for n := 1; n <= maxList; n++ {
